@@ -495,12 +495,14 @@ func runCase(c Case) (res simResult) {
 			for _, it := range prod {
 				if it.GetURL().Raw == o.URL && it.GetSeedVia() == o.Via {
 					if it.GetURL().GetHops() != o.Hops {
+						res.Facet2 = "C15/pipeline" // C15: outlinks reach the queue with hops = parent + 1 and their via
 						return fail("C06/pipeline", "outlink %s of %s was queued with hops %d, expected %d", o.URL, o.Via, it.GetURL().GetHops(), o.Hops)
 					}
 					found = true
 				}
 			}
 			if !found {
+				res.Facet2 = "C15/pipeline" // C15: outlinks reach the queue with hops = parent + 1 and their via
 				return fail("C06/pipeline", "outlink %s of page %s (page hops %d, max-hops %d) was not handed to the queue", o.URL, o.Via, e.Pages[o.Via], c.Settings.MaxHops)
 			}
 		}
@@ -515,6 +517,7 @@ func runCase(c Case) (res simResult) {
 					want = 0
 				}
 				if it.GetURL().GetHops() != want {
+					res.Facet2 = "C15/pipeline" // C15: outlinks reach the queue with hops = parent + 1 and their via
 					return fail("C06/pipeline", "outlink %s of %s carries hops %d, expected %d", it.GetURL().Raw, it.GetSeedVia(), it.GetURL().GetHops(), want)
 				}
 			}
@@ -680,7 +683,7 @@ func runCase(c Case) (res simResult) {
 func propSim(t veriflib.TB, outer *testing.T, c Case, feats map[string]bool) {
 	var res simResult
 	veriflib.Journal("C01", "C01/pipeline", c)
-	synctest.Test(outer, func(st *testing.T) {
+	veriflib.Bubble(outer, "C01", "C01/pipeline", c, func(st *testing.T) {
 		res = runCase(c)
 	})
 	veriflib.JournalDone()
@@ -723,6 +726,9 @@ func propSim(t veriflib.TB, outer *testing.T, c Case, feats map[string]bool) {
 	veriflib.Record("C05/pipeline", key, has("cut:excluded") || has("cut:unacceptable-url"), cl, sample)
 	veriflib.Record("C08/pipeline", key, has("cut:duplicate-in-tree") || has("cut:seen-skip") || has("cut:seen-promotion"), cl, sample)
 	veriflib.Record("C17/gauges", key, res.NonTriv, nil, sample)
+	if len(res.Produced) > 0 {
+		veriflib.Record("C15/pipeline", key, len(res.Produced) >= 2, cl, sample)
+	}
 	if has("ctl:pause-resume") {
 		veriflib.Record("C14/pipeline", key, res.NonTriv, cl, sample)
 	}
@@ -761,7 +767,7 @@ func genCase(t *rapid.T) (Case, map[string]bool) {
 	return c, feats
 }
 
-var simFacets = []string{"C01/pipeline", "C06/pipeline", "C05/pipeline", "C08/pipeline", "C13/pipeline", "C14/pipeline", "C03/sim", "C17/gauges"}
+var simFacets = []string{"C01/pipeline", "C06/pipeline", "C05/pipeline", "C08/pipeline", "C13/pipeline", "C14/pipeline", "C03/sim", "C17/gauges", "C15/pipeline"}
 
 func TestVerif_Sim_Pipeline(t *testing.T) {
 	defer veriflib.Flush()
